@@ -54,6 +54,7 @@ func checkC11(c *Ctx, r *Report) {
 	checkAztecGeometry(c, r)
 	checkAztecRSBeforeUnstuff(c, r)
 	checkAztecUnstuff(c, r)
+	checkAztecModeMessage(c, r)
 	// the six fields' constants (shared with C04)
 	checkGFConstants(c, r)
 	r.Note("not decided: the spiral read-out order of extractBits, the detector (bull's-eye location, orientation), rendering/scale tolerance; totality clauses (nil ECI, negative capacity, result pairing) are decided under C06")
@@ -667,5 +668,92 @@ func checkAztecUnstuff(c *Ctx, r *Report) {
 		} else {
 			r.Check(bad == "", "M-UNSTUFF", key, c.pos(countLoop.Pos()), bad)
 		}
+	}
+}
+
+// T-AZTECMODE: the split of the corrected mode message into layer count and data-codeword count
+func checkAztecModeMessage(c *Ctx, r *Report) {
+	r.Rule("T-AZTECMODE", "Detector.extractParameters splits the corrected mode message as ISO 24778 prescribes: compact symbols 2 bits (layers-1) + 6 bits (data codewords-1), full-range symbols 5 bits + 11 bits; the final assignments are folded for every 8-bit resp. 16-bit message", 2)
+	fd, p := c.funcDeclOf("aztec/detector", "Detector.extractParameters")
+	if fd == nil {
+		r.AnchorLost("T-AZTECMODE", "aztec/detector.Detector.extractParameters", "method not found")
+		return
+	}
+	// the last if statement on this.compact
+	var sw *ast.IfStmt
+	for _, st := range fd.Body.List {
+		if ifs, ok := st.(*ast.IfStmt); ok {
+			if sel, isS := ast.Unparen(ifs.Cond).(*ast.SelectorExpr); isS && sel.Sel.Name == "compact" && ifs.Else != nil {
+				sw = ifs
+			}
+		}
+	}
+	if sw == nil {
+		r.AnchorLost("T-AZTECMODE", "aztec/detector.Detector.extractParameters", "the compact / full-range split was not found")
+		return
+	}
+	// the variable holding the corrected message: assigned from getCorrectedParameterData
+	var msg types.Object
+	for _, st := range fd.Body.List {
+		if as, ok := st.(*ast.AssignStmt); ok && len(as.Rhs) == 1 {
+			if call, isC := as.Rhs[0].(*ast.CallExpr); isC {
+				if fn, isF := typeutil.Callee(p.TypesInfo, call).(*types.Func); isF && fn.Name() == "getCorrectedParameterData" {
+					msg = identObj(p, as.Lhs[0])
+				}
+			}
+		}
+	}
+	if msg == nil {
+		r.Undecided("T-AZTECMODE", "aztec/detector.Detector.extractParameters", c.pos(fd.Pos()), "corrected mode message variable not found")
+		return
+	}
+	for _, t := range []struct {
+		name       string
+		body       []ast.Stmt
+		bits, data uint
+	}{{"compact", sw.Body.List, 8, 6}, {"full", nil, 16, 11}} {
+		body := t.body
+		if body == nil {
+			if eb, ok := sw.Else.(*ast.BlockStmt); ok {
+				body = eb.List
+			}
+		}
+		key := "aztec/detector.Detector.extractParameters/" + t.name
+		r.Analysed(key)
+		bad := ""
+		for v := int64(0); v < 1<<t.bits && bad == ""; v++ {
+			got := map[string]int64{}
+			h := &rpf{stHook: func(rr *rpf, lhs ast.Expr, val *Val) bool {
+				if sel, ok := lhs.(*ast.SelectorExpr); ok && val.K == VInt {
+					got[sel.Sel.Name] = val.I
+					return true
+				}
+				return false
+			}}
+			env := map[types.Object]*Val{msg: vint(v)}
+			rr := &rpf{c: c, p: p, env: env, stHook: h.stHook}
+			func() {
+				defer func() {
+					if y := recover(); y != nil {
+						if re, ok := y.(*rpfErr); ok {
+							bad = "?" + re.Error()
+							return
+						}
+						panic(y)
+					}
+				}()
+				for _, st := range body {
+					rr.stmt(st)
+				}
+			}()
+			if bad != "" {
+				break
+			}
+			wl, wd := (v>>t.data)+1, (v&(1<<t.data-1))+1
+			if got["nbLayers"] != wl || got["nbDataBlocks"] != wd {
+				bad = fmt.Sprintf("%s mode message %#x: layers %d, data codewords %d; ISO 24778 gives layers %d, data codewords %d", t.name, v, got["nbLayers"], got["nbDataBlocks"], wl, wd)
+			}
+		}
+		reportFold(r, c, "T-AZTECMODE", key, sw.Pos(), bad)
 	}
 }
